@@ -332,6 +332,9 @@ type PrewriteOpts struct {
 	// AssertionLevel (TiKV's check_assertion): Off - mutation assertions are ignored; Fast - an assertion is judged
 	// where the newest version was read for the conflict check anyway; Strict - always
 	AssertionLevel kvrpcpb.AssertionLevel
+	// ForceFallback: the store refuses async commit / 1PC for this request (answers min_commit_ts 0 and writes plain
+	// locks), as TiKV does when the calculated commit ts would be too large: the client falls back to 2PC
+	ForceFallback bool
 }
 
 // PrewriteResult is the answer to a prewrite.
@@ -457,7 +460,7 @@ func (s *Store) Prewrite(muts []*kvrpcpb.Mutation, o PrewriteOpts) PrewriteResul
 	if len(res.Errs) > 0 {
 		return res
 	}
-	fallback := (o.Async || o.TryOnePC) && o.MaxCommitTS != 0 && maxMin > o.MaxCommitTS
+	fallback := (o.Async || o.TryOnePC) && (o.ForceFallback || (o.MaxCommitTS != 0 && maxMin > o.MaxCommitTS))
 	if o.TryOnePC && !fallback {
 		for _, p := range pending {
 			k := s.ks(p.key)
